@@ -44,7 +44,7 @@ namespace
 // not. (A wall-clock watchdog is unusable here: under load average > 100 this machine stalled whole
 // process groups for more than a minute - the kernel logged stalled workqueues - and every shard's
 // 60 s watchdog fired at the same instant on cases that replay in 3 ms.) A normal case needs
-// milliseconds of CPU; the bound is 120 s, i.e. > 10^4 times that. On expiry the handler aborts; the
+// milliseconds of CPU (the heaviest fixed regression < 1 s); the bound is 30 s. On expiry the handler aborts; the
 // pbt runtime's SIGABRT hook records the running case (signature "abort", the message below is part
 // of the report).
 void cpuGuardExpired(int)
@@ -64,7 +64,7 @@ struct CpuGuard
       std::signal(SIGVTALRM, cpuGuardExpired);
       const char *e = std::getenv("C14_CPU_GUARD_SECONDS");
       long v = e ? std::atol(e) : 0;
-      return v > 0 ? v : 120L;
+      return v > 0 ? v : 30L;
     }();
     itimerval t{};
     t.it_value.tv_sec = bound;
@@ -794,6 +794,7 @@ std::string stripLead(std::string s)
 
 PBT_PROPERTY(emit)
 {
+  CpuGuard cpuGuard;
   static FILE *f = [] { const char *p = std::getenv("C14_EMIT"); return p ? std::fopen(p, "w") : nullptr; }();
   refxml::GenOpts go;
   go.maxDepth = 4;
